@@ -55,6 +55,8 @@ def rand_scenario(rng, drv, k):
             # driver waits for an answer once the frame has been confirmed
             sc["latency"] = 0.03
             sc["latencies"] = []
+        if rng.random() < 0.15:
+            sc["send_before_connect"] = rng.choice([1, 2])
     return sc
 
 
